@@ -270,6 +270,11 @@ func (p *Program) verifyFunc(t *target) (vc *VC, rep *FuncReport) {
 	for l := range f.breaks {
 		panic(unsupported("break escapes the function: label " + l))
 	}
+	for l, ss := range f.gotos {
+		if len(ss) > 0 {
+			panic(unsupported("goto " + l + ": backward jumps are outside the subset"))
+		}
+	}
 	// postconditions on the merged return state
 	var sts []*State
 	for _, r := range x.returns {
